@@ -128,6 +128,20 @@ func (r *Report) addHarness(res *HarnessResult) {
 	sh := res.Sh
 	hr.Paths = sh.paths
 	hr.Leaves = sh.stats
+	if brStats {
+		type kv struct {
+			k string
+			n int
+		}
+		var l []kv
+		for k, n := range sh.forkSites {
+			l = append(l, kv{k, n})
+		}
+		sort.Slice(l, func(i, j int) bool { return l[i].n > l[j].n })
+		for _, e := range l {
+			fmt.Fprintf(os.Stderr, "FORKS %7d %s\n", e.n, e.k)
+		}
+	}
 	hr.Decisions = sh.decisions
 	hr.MaxDepth = sh.maxDepth
 	if hs.Sched {
